@@ -10,7 +10,8 @@ def divi (m : Mode) (y x : Int) : R Int := do
   let x1 ← arithU m 32 "atan2.rs:5 x += (1 << (15 - z)) - 1" (x + (2 ^ (15 - z).toNat - 1))
   let x2 := shr x1 (16 - z).toNat
   if x2 = 0 then .ok 0 else do
-    let q := y1 / x2
+    -- `(y / x).min(1 << 16)` since the `fix:` commit (the truncated divisor could push the quotient above 1.0)
+    let q := min (y1 / x2) (2 ^ 16)
     let a := wrapU 32 (q * 2 ^ 15)
     arithU m 32 "atan2.rs:10 ((y / x) << 15) + (1 << 14)" (a + 2 ^ 14)
 
